@@ -345,7 +345,11 @@ pub fn gen(seed: u64, count: usize, thorough: bool) -> String {
             }
         };
         let t = tx_ns(blen, bitrate);
-        writeln!(out, "case {k} bitrate={bitrate} lat={lat} jit={jit} drop={drop} seed={}", r.below(1000)).unwrap();
+        // a third of the cases wire the link under test at run time from a (busy) template channel (`tmpl=1`);
+        // derived from the seed value so that the random stream of the generator is unchanged
+        let sd = r.below(1000);
+        let tmpl = if sd % 3 == 0 { " tmpl=1" } else { "" };
+        writeln!(out, "case {k} bitrate={bitrate} lat={lat} jit={jit} drop={drop} seed={sd}{tmpl}").unwrap();
         let nh = if thorough { r.range(1, 14) } else { r.range(1, 7) };
         let mut tag = 0u64;
         for i in 0..nh {
